@@ -41,6 +41,64 @@ package pflag
 //@   flag vacuity off
 //@   requires s != nil && ptyp != nil
 //@   modifies *
+//@   at call fieldVal.Convert(stringType):
+//@     assert C12_the_default_is_read_at_the_width_of_the_leaf_kind: k == String
+//@   at call fieldVal.Convert(boolType):
+//@     assert C12_the_default_is_read_at_the_width_of_the_leaf_kind: k == Bool
+//@   at call fieldVal.Convert(float64Type):
+//@     assert C12_the_default_is_read_at_the_width_of_the_leaf_kind: k == Float64
+//@   at call fieldVal.Convert(float32Type):
+//@     assert C12_the_default_is_read_at_the_width_of_the_leaf_kind: k == Float32
+//@   at call fieldVal.Convert(intType):
+//@     assert C12_the_default_is_read_at_the_width_of_the_leaf_kind: k == Int
+//@   at call fieldVal.Convert(int8Type):
+//@     assert C12_the_default_is_read_at_the_width_of_the_leaf_kind: k == Int8
+//@   at call fieldVal.Convert(int16Type):
+//@     assert C12_the_default_is_read_at_the_width_of_the_leaf_kind: k == Int16
+//@   at call fieldVal.Convert(int32Type):
+//@     assert C12_the_default_is_read_at_the_width_of_the_leaf_kind: k == Int32
+//@   at call fieldVal.Convert(int64Type):
+//@     assert C12_the_default_is_read_at_the_width_of_the_leaf_kind: k == Int64
+//@   at call fieldVal.Convert(uintType):
+//@     assert C12_the_default_is_read_at_the_width_of_the_leaf_kind: k == Uint
+//@   at call fieldVal.Convert(uint8Type):
+//@     assert C12_the_default_is_read_at_the_width_of_the_leaf_kind: k == Uint8
+//@   at call fieldVal.Convert(uint16Type):
+//@     assert C12_the_default_is_read_at_the_width_of_the_leaf_kind: k == Uint16
+//@   at call fieldVal.Convert(uint32Type):
+//@     assert C12_the_default_is_read_at_the_width_of_the_leaf_kind: k == Uint32
+//@   at call fieldVal.Convert(uint64Type):
+//@     assert C12_the_default_is_read_at_the_width_of_the_leaf_kind: k == Uint64
+//@   at call fieldVal.Convert(uintptrType):
+//@     assert C12_the_default_is_read_at_the_width_of_the_leaf_kind: k == Uintptr
+//@   at call s.Flags.StringP(:
+//@     assert C12_each_leaf_kind_gets_the_flag_type_of_its_own_width: k == String
+//@   at call s.Flags.BoolP(:
+//@     assert C12_each_leaf_kind_gets_the_flag_type_of_its_own_width: k == Bool
+//@   at call s.Flags.Float64P(:
+//@     assert C12_each_leaf_kind_gets_the_flag_type_of_its_own_width: k == Float64
+//@   at call s.Flags.Float32P(:
+//@     assert C12_each_leaf_kind_gets_the_flag_type_of_its_own_width: k == Float32
+//@   at call s.Flags.IntP(:
+//@     assert C12_each_leaf_kind_gets_the_flag_type_of_its_own_width: k == Int
+//@   at call s.Flags.Int8P(:
+//@     assert C12_each_leaf_kind_gets_the_flag_type_of_its_own_width: k == Int8
+//@   at call s.Flags.Int16P(:
+//@     assert C12_each_leaf_kind_gets_the_flag_type_of_its_own_width: k == Int16
+//@   at call s.Flags.Int32P(:
+//@     assert C12_each_leaf_kind_gets_the_flag_type_of_its_own_width: k == Int32
+//@   at call s.Flags.Int64P(:
+//@     assert C12_each_leaf_kind_gets_the_flag_type_of_its_own_width: k == Int64
+//@   at call s.Flags.UintP(:
+//@     assert C12_each_leaf_kind_gets_the_flag_type_of_its_own_width: k == Uint
+//@   at call s.Flags.Uint8P(:
+//@     assert C12_each_leaf_kind_gets_the_flag_type_of_its_own_width: k == Uint8
+//@   at call s.Flags.Uint16P(:
+//@     assert C12_each_leaf_kind_gets_the_flag_type_of_its_own_width: k == Uint16
+//@   at call s.Flags.Uint32P(:
+//@     assert C12_each_leaf_kind_gets_the_flag_type_of_its_own_width: k == Uint32
+//@   at call s.Flags.Uint64P(:
+//@     assert C12_each_leaf_kind_gets_the_flag_type_of_its_own_width: k == Uint64 || k == Uintptr
 //@   at call transform.NewAliasMangler(:
 //@     assert C14_the_dials_and_both_pflag_alias_tags_are_honoured: len(arg0) == 3 && cell(selem(arg0, 0), "string") == "dials" && cell(selem(arg0, 1), "string") == "dialspflag"
 //@   at call transform.NewTransformer(:
